@@ -3,6 +3,7 @@ import StorageModel.Query.Providers
 import StorageModel.Query.Resolve
 import StorageModel.Query.Llrb
 import StorageModel.Query.FloatOrder
+import StorageModel.Query.History
 import StorageModel.Generated.PagingFacts
 /-
   C02 — Sort order, skip, limit and total count are exact.
@@ -620,6 +621,223 @@ example : ((iteratorMatchingAnyOf [[119], [114], [119]]).cursor pvIx pvRows fals
 example : ((iteratorMatchingAllOf []).cursor pvIx pvRows true) = some [] := by decide
 example : ((Provider.related [111] "things").cursor pvIx pvRows false).map (·.map (·.id)) = some [[100], [98]] := by decide
 
+/-! ### histories on one query object -/
+
+theorem newRowComparator_id_ok {schema : Schema} (hid : HasIdSymbol schema) (asc : Bool) :
+    ∃ c, newRowComparator schema [⟨"id", asc⟩] = .ok c := by
+  unfold HasIdSymbol at hid
+  simp [newRowComparator, resolveSort, hid]
+
+theorem newRowComparator_nil_ok {schema : Schema} (hid : HasIdSymbol schema) :
+    ∃ c, newRowComparator schema [] = .ok c := by
+  unfold HasIdSymbol at hid
+  simp [newRowComparator, resolveSort, hid]
+
+/-- the model's scans read the paging of the query object only through the scanner's targets -/
+theorem queryIdsC_target (st : BoltStore) (q q' : Query) (hf : q.filter = q'.filter) (hs : q.sort = q'.sort)
+    (ht : targetOf q.paging = targetOf q'.paging) :
+    queryIdsC expectedPaging st q = queryIdsC expectedPaging st q' := by
+  rcases q with ⟨f, s, p⟩
+  rcases q' with ⟨f', s', p'⟩
+  simp only at hf hs ht
+  subst hf hs
+  simp only [queryIdsC, scanCursor, idxScan, sortScan, setPaging_target, ht]
+
+theorem iterateIds_target (st : BoltStore) (q q' : Query) (hf : q.filter = q'.filter)
+    (ht : targetOf q.paging = targetOf q'.paging) :
+    iterateIds expectedPaging st q = iterateIds expectedPaging st q' := by
+  rcases q with ⟨f, s, p⟩
+  rcases q' with ⟨f', s', p'⟩
+  simp only at hf ht
+  subst hf
+  simp only [iterateIds, iterate, openPaged, setPaging_target, ht]
+
+theorem requested_eq_matching (st : BoltStore) (rows : List Row) (q : Query) :
+    matching (st.env q.filter) rows = requested st rows q := by
+  simp only [matching, requested, BoltStore.env, bolt_eval_sat]
+  congr 1
+
+/-- **query_ids_total**: `QueryIdsC` answers what the specification demands for EVERY sort list — refused
+    ones (error of the comparator) and `id`-first ones included -/
+theorem query_ids_total (st : BoltStore) (rows : List Row) (q : Query)
+    (hb : st.bucket = some rows) (hord : BucketOrdered rows) (hid : HasIdSymbol st.schema)
+    (hq : q.paging.InRange) (hlen : (rows.length : Int) ≤ maxI64) :
+    queryIdsC Generated.boltzPaging st q = specAnswer st rows q := by
+  unfold specAnswer requested
+  cases hsort : q.sort with
+  | nil =>
+    obtain ⟨c, hc⟩ := newRowComparator_nil_ok hid
+    simp only [effSort, hc]
+    exact query_ids_exact st rows q c hb hord hid (by rw [hsort]; exact hc) hq hlen
+  | cons f rest =>
+    by_cases hname : f.name = "id"
+    · obtain ⟨c, hc⟩ := newRowComparator_id_ok hid f.asc
+      have hf : f = ⟨"id", f.asc⟩ := by cases f; simp only at hname; subst hname; rfl
+      simp only [effSort, hname, if_true]
+      rw [hf] at hsort ⊢
+      simp only [hc]
+      exact id_first_exact st rows q f.asc rest c hsort hb hord hid hc hq hlen
+    · simp only [effSort, hname, if_false]
+      have hs : newScanner q.sort = .sorting := by
+        rw [hsort]
+        have hhead : (if (f :: rest).length > sortMax then (f :: rest).take sortMax else f :: rest) =
+            f :: (if (f :: rest).length > sortMax then rest.take (sortMax - 1) else rest) := by
+          split <;> simp [sortMax]
+        simp only [newScanner, hhead, hname, if_false]
+      cases hc : newRowComparator st.schema (f :: rest) with
+      | error e =>
+        exact (sorting_scan_error_exact st rows q e hb hs (by rw [hsort]; exact hc)).1
+      | ok c =>
+        exact query_ids_exact st rows q c hb hord hid (by rw [hsort]; exact hc) hq hlen
+
+theorem iterate_ids_total (st : BoltStore) (rows : List Row) (q : Query)
+    (hb : st.bucket = some rows) (hord : BucketOrdered rows) (hid : HasIdSymbol st.schema)
+    (hq : q.paging.InRange) (hlen : (rows.length : Int) ≤ maxI64) :
+    iterateIds Generated.boltzPaging st q = specIter st rows q := by
+  obtain ⟨c, hc⟩ := newRowComparator_nil_ok hid
+  simp only [specIter, hc, ← requested_eq_matching]
+  exact cursor_iter_exact st rows q c hb hord hid hc hq hlen
+
+/-- model object and request agree: same filter, same sort clause, pagings that mean the same targets -/
+structure Agrees (qm qs : Query) : Prop where
+  filter : qm.filter = qs.filter
+  sort : qm.sort = qs.sort
+  target : targetOf qm.paging = targetOf qs.paging
+  rm : qm.paging.InRange
+  rs : qs.paging.InRange
+
+theorem targetOf_writeback (p : Paging) : targetOf (setPaging expectedPaging p).1 = targetOf p := by
+  rw [← setPaging_target, setPaging_idempotent, setPaging_target]
+
+theorem inRange_writeback {p : Paging} (h : p.InRange) : (setPaging expectedPaging p).1.InRange := by
+  rw [setPaging_writeback]
+  rcases p with ⟨skip, limit⟩
+  obtain ⟨hs, hl⟩ := h
+  constructor
+  · intro s hs'
+    simp only [Option.some.injEq] at hs'
+    subst hs'
+    cases skip with
+    | none => simp [InI64, minI64, maxI64]
+    | some s => exact hs s rfl
+  · intro l hl'
+    simp only [Option.some.injEq] at hl'
+    subst hl'
+    cases limit with
+    | none => simp [InI64, minI64, maxI64]
+    | some l =>
+      by_cases h : l < 0
+      · simp [h, InI64, minI64, maxI64]
+      · simp only [h, if_false]; exact hl l rfl
+
+theorem agrees_writeback {qm qs : Query} (h : Agrees qm qs) : Agrees (wroteBack expectedPaging qm) qs :=
+  ⟨h.filter, h.sort, by simp only [wroteBack]; rw [targetOf_writeback]; exact h.target, inRange_writeback h.rm, h.rs⟩
+
+theorem agrees_step (st : BoltStore) (rows : List Row) (hb : st.bucket = some rows) {qm qs : Query} (h : Agrees qm qs)
+    (op : QOp) (hop : op.InRange) :
+    Agrees (stepOp expectedPaging st qm op).1 (applyRequest qs op) := by
+  obtain ⟨hf, hs, ht, hrm, hrs⟩ := h
+  cases op with
+  | run => simpa only [stepOp, hb, Option.isNone_some, applyRequest, Bool.false_eq_true, if_false] using agrees_writeback ⟨hf, hs, ht, hrm, hrs⟩
+  | cur => simpa only [stepOp, hb, applyRequest] using agrees_writeback ⟨hf, hs, ht, hrm, hrs⟩
+  | iter => simpa only [stepOp, hb, Option.isNone_some, applyRequest, Bool.false_eq_true, if_false] using agrees_writeback ⟨hf, hs, ht, hrm, hrs⟩
+  | getSort => exact ⟨hf, hs, ht, hrm, hrs⟩
+  | adopt s => exact ⟨hf, rfl, ht, hrm, hrs⟩
+  | setPredicate f => exact ⟨rfl, hs, ht, hrm, hrs⟩
+  | setSkip v =>
+    refine ⟨hf, hs, ?_, ⟨?_, hrm.2⟩, ⟨?_, hrs.2⟩⟩
+    · simp only [stepOp, applyRequest, targetOf, Target.mk.injEq, true_and]
+      simp only [targetOf, Target.mk.injEq] at ht
+      exact ht.2
+    · intro s hs'; simp only [stepOp, Option.some.injEq] at hs'; subst hs'; exact hop
+    · intro s hs'; simp only [applyRequest, Option.some.injEq] at hs'; subst hs'; exact hop
+  | setLimit v =>
+    refine ⟨hf, hs, ?_, ⟨hrm.1, ?_⟩, ⟨hrs.1, ?_⟩⟩
+    · simp only [stepOp, applyRequest, targetOf, Target.mk.injEq, and_true]
+      simp only [targetOf, Target.mk.injEq] at ht
+      exact ht.1
+    · intro s hs'; simp only [stepOp, Option.some.injEq] at hs'; subst hs'; exact hop
+    · intro s hs'; simp only [applyRequest, Option.some.injEq] at hs'; subst hs'; exact hop
+
+theorem obs_step (st : BoltStore) (rows : List Row) (hb : st.bucket = some rows) (hord : BucketOrdered rows)
+    (hid : HasIdSymbol st.schema) (hlen : (rows.length : Int) ≤ maxI64) {qm qs : Query} (h : Agrees qm qs) (op : QOp) :
+    (stepOp Generated.boltzPaging st qm op).2 = specObs st qs op := by
+  have hrun : queryIdsC Generated.boltzPaging st qm = specAnswer st rows qs := by
+    rw [← query_ids_total st rows qs hb hord hid h.rs hlen, paging_facts_expected]
+    exact queryIdsC_target st qm qs h.filter h.sort h.target
+  cases op with
+  | run => simp only [stepOp, specObs, hb, hrun]
+  | cur =>
+    simp only [stepOp, specObs, hb]
+    rw [← hrun]
+    simp only [queryIdsC, queryWithCursorC, hb]
+  | iter =>
+    simp only [stepOp, specObs, hb]
+    rw [← iterate_ids_total st rows qs hb hord hid h.rs hlen, paging_facts_expected]
+    exact congrArg _ (iterateIds_target st qm qs h.filter h.target)
+  | getSort => simp only [stepOp, specObs, h.sort]
+  | adopt s => rfl
+  | setSkip v => rfl
+  | setLimit v => rfl
+  | setPredicate f => rfl
+
+/-- **history_exact.**  For every sequence of calls on ONE query object — executions through `QueryIdsC`,
+    `QueryWithCursorC`, `IterateIds`, reads of the sort fields, `AdoptSortFields`, `SetSkip`, `SetLimit`,
+    `SetPredicate`, in any order and number — every execution answers the page (and count) of the request
+    as the caller's own calls have made it by then: the sort clause adopted last, the skip / limit set last,
+    the predicate set last.  Earlier executions (which write the paging defaults back into the object)
+    and earlier reads leave no trace. -/
+theorem history_exact (st : BoltStore) (rows : List Row) (q0 : Query) (ops : List QOp)
+    (hb : st.bucket = some rows) (hord : BucketOrdered rows) (hid : HasIdSymbol st.schema)
+    (hq : q0.paging.InRange) (hops : ∀ op ∈ ops, op.InRange) (hlen : (rows.length : Int) ≤ maxI64) :
+    runHistory Generated.boltzPaging st q0 ops = specHistory st q0 ops := by
+  suffices h : ∀ (ops : List QOp) (qm qs : Query), Agrees qm qs → (∀ op ∈ ops, op.InRange) →
+      runHistory Generated.boltzPaging st qm ops = specHistory st qs ops from
+    h ops q0 q0 ⟨rfl, rfl, rfl, hq, hq⟩ hops
+  intro ops
+  induction ops with
+  | nil => intros; rfl
+  | cons op ops ih =>
+    intro qm qs hag hops
+    simp only [runHistory, specHistory]
+    rw [obs_step st rows hb hord hid hlen hag op]
+    congr 1
+    apply ih
+    · have := agrees_step st rows hb hag op (hops op List.mem_cons_self)
+      rwa [← paging_facts_expected] at this
+    · exact fun o ho => hops o (List.mem_cons_of_mem _ ho)
+
+/-- without entities bucket nothing is scanned and nothing is written back: every execution answers
+    "no rows, count 0" and the object stays exactly what the caller made it -/
+theorem history_exact_no_bucket (st : BoltStore) (q0 : Query) (ops : List QOp) (hb : st.bucket = none) :
+    runHistory Generated.boltzPaging st q0 ops = specHistory st q0 ops := by
+  induction ops generalizing q0 with
+  | nil => rfl
+  | cons op ops ih =>
+    simp only [runHistory, specHistory]
+    have h1 : (stepOp Generated.boltzPaging st q0 op).2 = specObs st q0 op := by
+      cases op <;> simp [stepOp, specObs, hb, queryIdsC, iterateIds]
+    have h2 : (stepOp Generated.boltzPaging st q0 op).1 = applyRequest q0 op := by
+      cases op <;> simp [stepOp, applyRequest, hb]
+    rw [h1, h2, ih]
+
+/-- the seeded shape: a query sorted by `s`, executed, then adopting `id desc`, executed again -/
+example : (runHistory expectedPaging exStore exQuery [.run, .adopt [⟨"id", false⟩], .run]).map
+      (fun o => match o with | .answer r => answer r | _ => none) =
+    [some ([[97], [99]], 3), none, some ([[98], [97]], 3)] := by decide
+
+/-- non-vacuity of `history_exact`'s hypotheses (with `exStore`, `exQuery` above) -/
+example : ∀ op ∈ [QOp.run, .adopt [⟨"id", false⟩], .setSkip 1, .setLimit (-1), .iter], op.InRange := by
+  intro op h
+  simp only [List.mem_cons, List.mem_nil_iff, or_false] at h
+  rcases h with rfl | rfl | rfl | rfl | rfl <;> simp [QOp.InRange, InI64, minI64, maxI64]
+
+/-- after an execution wrote the defaults back (`skip 1`, limit MaxInt64), `SetLimit(1)` and a new sort clause
+    decide the next answer alone -/
+example : (runHistory expectedPaging exStore exQuery [.cur, .setLimit 1, .adopt [⟨"s", false⟩], .getSort, .run]).map
+      (fun o => match o with | .answer r => answer r | _ => none) =
+    [some ([[97], [99]], 3), none, none, none, some ([[99]], 3)] := by decide
+
 end StorageModel.Properties.C02
 
 #print axioms StorageModel.Properties.C02.paging_facts_expected
@@ -659,3 +877,7 @@ end StorageModel.Properties.C02
 #print axioms StorageModel.Properties.C02.id_first_exact
 #print axioms StorageModel.Properties.C02.llrb_insert_is_sorted_insert
 #print axioms StorageModel.Properties.C02.int_float_key_monotone
+#print axioms StorageModel.Properties.C02.query_ids_total
+#print axioms StorageModel.Properties.C02.iterate_ids_total
+#print axioms StorageModel.Properties.C02.history_exact
+#print axioms StorageModel.Properties.C02.history_exact_no_bucket
